@@ -50,57 +50,49 @@ func ruleC03(p *Program, r *Run) {
 		r.Check(doc && parserKinds[k], "C03/kinds", fmt.Sprintf("parser.joinTypes has %q", k), p.Pos(jt.Pos()), "documented join kind accepted by the parser", fmt.Sprintf("join kind %q: accepted by parser=%v, documented=%v", k, parserKinds[k], doc))
 	}
 
-	// the flavor variable: the string-typed switch tag in the join case
+	// the flavor variable: the local string of the join case that takes the operator's kind= name (X.Flavor.Name)
 	var flavor types.Object
-	var flavorSw *ast.SwitchStmt
+	var flavorSw ast.Node = joinCase
 	ast.Inspect(joinCase, func(n ast.Node) bool {
-		if sw, ok := n.(*ast.SwitchStmt); ok && sw.Tag != nil && flavor == nil {
-			if o := objOf(info, sw.Tag); o != nil {
-				if b, ok := o.Type().Underlying().(*types.Basic); ok && b.Kind() == types.String {
-					flavor, flavorSw = o, sw
-				}
+		as, ok := n.(*ast.AssignStmt)
+		if !ok || len(as.Lhs) != 1 || len(as.Rhs) != 1 || flavor != nil {
+			return true
+		}
+		sel, ok := ast.Unparen(as.Rhs[0]).(*ast.SelectorExpr)
+		if !ok || sel.Sel.Name != "Name" {
+			return true
+		}
+		if f := selField(info, sel.X); f == nil || f.Name() != "Flavor" {
+			return true
+		}
+		if o := objOf(info, as.Lhs[0]); o != nil {
+			if b, ok := o.Type().Underlying().(*types.Basic); ok && b.Kind() == types.String {
+				flavor = o
 			}
 		}
 		return true
 	})
 	if flavor == nil {
-		r.Fail("C03/kinds", fn+" join kind dispatch", p.Pos(joinCase.Pos()), "no switch over the join kind found in the join case")
+		r.Fail("C03/kinds", fn+" join kind dispatch", p.Pos(joinCase.Pos()), "no variable in the join case takes the operator's kind (op.Flavor.Name)")
 		return
 	}
 	fk := p.ObjKey(flavor)
-	// default kind
+	// default kind: the constant the variable is declared with
 	defKind := ""
 	ast.Inspect(joinCase, func(n ast.Node) bool {
-		if as, ok := n.(*ast.AssignStmt); ok && len(as.Lhs) == 1 && objOf(info, as.Lhs[0]) == flavor && as.Tok == token.DEFINE {
-			defKind, _ = constString(info, as.Rhs[0])
+		switch v := n.(type) {
+		case *ast.AssignStmt:
+			if len(v.Lhs) == 1 && objOf(info, v.Lhs[0]) == flavor && v.Tok == token.DEFINE {
+				defKind, _ = constString(info, v.Rhs[0])
+			}
+		case *ast.ValueSpec:
+			if len(v.Names) == 1 && info.Defs[v.Names[0]] == flavor && len(v.Values) == 1 {
+				defKind, _ = constString(info, v.Values[0])
+			}
 		}
 		return true
 	})
 	r.Check(defKind == "innerunique", "C03/kinds", fn+" default join kind", p.Pos(joinCase.Pos()), "a join without kind= is innerunique", fmt.Sprintf("the default join kind is %q, documented: innerunique", defKind))
-	// a non-default kind comes from op.Flavor.Name
-	// dispatch cases
-	swKinds := map[string]bool{}
-	dfltErr := false
-	for _, c := range flavorSw.Body.List {
-		cc := c.(*ast.CaseClause)
-		if cc.List == nil {
-			for _, s := range cc.Body {
-				if ret, ok := s.(*ast.ReturnStmt); ok && len(ret.Results) == 2 && !isNilIdent(info, ret.Results[1]) {
-					dfltErr = true
-				}
-			}
-			continue
-		}
-		for _, e := range cc.List {
-			if s, ok := constString(info, e); ok {
-				swKinds[s] = true
-			}
-		}
-	}
-	for k := range docJoinKinds {
-		r.Check(swKinds[k], "C03/kinds", fmt.Sprintf("%s translates join kind %q", fn, k), p.Pos(flavorSw.Pos()), "has a case", fmt.Sprintf("join kind %q is accepted by the parser but the compiler has no case for it", k))
-	}
-	r.Check(dfltErr, "C03/kinds", fn+" unknown join kind is an error", p.Pos(flavorSw.Pos()), "default case returns an error", "an unknown join kind does not fail compilation")
 
 	// ---- what is written for each kind (derived grammar, path facts)
 	g := p.Grammar()
@@ -229,8 +221,8 @@ func ruleC03(p *Program, r *Run) {
 	// which names are written on each side
 	var leftQ, rightQ string
 	for _, ev := range g.events {
-		if ev.Func != sq || ev.Kind != "Q" {
-			continue
+		if ev.Func != sq || ev.Kind != "Q" || ev.Frame != "" || constOf(info, ev.Arg) != nil {
+			continue // only names taken from subqueries (not the constant aliases, not writes of helpers)
 		}
 		if ev.Call.Pos() > joinCase.Pos() && ev.Call.End() < joinCase.End() {
 			if leftQ == "" {
@@ -267,16 +259,16 @@ func ruleC03(p *Program, r *Run) {
 			return false, false
 		}
 		for _, o := range g.occs {
-			if o.Ev.Func != sq || o.Ev.Call.Pos() < joinCase.Pos() || o.Ev.Call.End() > joinCase.End() {
+			if o.Ev.Func != sq || o.Ev.Root.Pos() < joinCase.Pos() || o.Ev.Root.End() > joinCase.End() {
 				continue
 			}
 			switch {
-			case o.Ev.Kind == "Q" && strings.Contains(exprStr(o.Ev.Arg), "["+leftVar.Name()+"]"):
+			case o.Ev.Kind == "Q" && o.Ev.Frame == "" && strings.Contains(exprStr(o.Ev.Arg), "["+leftVar.Name()+"]"):
 				sawPrev = true
 				if known, prev := rel(o); !known || !prev {
 					okGuard = false
 				}
-			case o.Ev.Kind == "HOLE" && o.Ev.Callee != nil && o.Ev.Callee.Name() == "dataSourceSQL":
+			case o.Ev.Kind == "HOLE" && o.Ev.Callee != nil && o.Ev.Callee.Name() == "dataSourceSQL", strings.HasPrefix(o.Ev.Frame, "dataSourceSQL@"):
 				sawSource = true
 				if known, prev := rel(o); !known || prev {
 					okGuard = false
@@ -361,82 +353,18 @@ func ruleC03Rewrite(p *Program, r *Run) {
 	rw := p.MustFunc(pkg, "rewriteSimpleJoinCondition")
 	fn := FuncName(pkg, rw)
 	r.Saw(fn)
-	var lit *ast.CompositeLit
-	ast.Inspect(rw.Body, func(n ast.Node) bool {
-		if cl, ok := n.(*ast.CompositeLit); ok && TypeStr(info.TypeOf(cl)) == "parser.BinaryExpr" && lit == nil {
-			lit = cl
-		}
-		return true
-	})
-	if lit == nil {
-		r.Fail("C03/rewrite", fn+" equality", p.Pos(rw.Pos()), "a bare column name is not rewritten into a comparison")
-		return
+	// Every path through the function either returns its argument unchanged - and then the argument is known not to
+	// be a bare column name - or returns `$left.k == $right.k` built from the argument's only part, and then the
+	// argument is known to be an unquoted, unqualified identifier that is not a built-in constant.
+	rc := &rewriteClient{p: p, fn: fn, param: info.Defs[rw.Type.Params.List[0].Names[0]]}
+	e := NewEngine(p, pkg, rw, rc)
+	e.Run(nil)
+	for _, m := range e.Errs {
+		r.Fail("C03/rewrite", fn+" engine", "-", m)
 	}
-	op := litField(info, lit, "Op")
-	r.Check(op != nil && constName(info, op) == "TokenEq", "C03/rewrite", fn+" operator", p.Pos(lit.Pos()), "bare name k means $left.k == $right.k", "the rewritten condition does not use ==")
-	side := func(field, alias string) (bool, ast.Expr) {
-		v := litField(info, lit, field)
-		if v == nil {
-			return false, nil
-		}
-		ql := litOf(v)
-		if ql == nil {
-			return false, nil
-		}
-		parts := litField(info, ql, "Parts")
-		pl, ok := ast.Unparen(parts).(*ast.CompositeLit)
-		if !ok || len(pl.Elts) != 2 {
-			return false, nil
-		}
-		first, ok := pl.Elts[0].(*ast.CompositeLit)
-		if !ok {
-			return false, nil
-		}
-		name := litField(info, first, "Name")
-		if name == nil || constName(info, name) != alias {
-			return false, nil
-		}
-		if q := litField(info, first, "Quoted"); q != nil {
-			return false, nil
-		}
-		return true, pl.Elts[1]
-	}
-	okL, colL := side("X", "leftJoinTableAlias")
-	okR, colR := side("Y", "rightJoinTableAlias")
-	r.Check(okL && okR && colL != nil && colR != nil && sameExpr(info, colL, colR), "C03/rewrite", fn+" sides", p.Pos(lit.Pos()), "X = $left.<name>, Y = $right.<same name>", "the rewritten comparison is not `$left.k == $right.k` with the same column on both sides")
-	// it applies only to an unquoted, unqualified, non-constant identifier: read the early-return guard
-	guardOK := false
-	ast.Inspect(rw.Body, func(n ast.Node) bool {
-		ifs, ok := n.(*ast.IfStmt)
-		if !ok {
-			return true
-		}
-		ds := disjuncts(ifs.Cond)
-		var seen []string
-		for _, d := range ds {
-			s := exprStr(d)
-			switch {
-			case strings.HasPrefix(s, "!"):
-				seen = append(seen, "notident")
-			case strings.Contains(s, "len(") && strings.Contains(s, "!= 1"):
-				seen = append(seen, "qualified")
-			case strings.HasSuffix(s, ".Quoted"):
-				seen = append(seen, "quoted")
-			case strings.Contains(s, "builtinIdentifiers"):
-				seen = append(seen, "builtin")
-			}
-		}
-		sort.Strings(seen)
-		if strings.Join(seen, ",") == "builtin,notident,qualified,quoted" {
-			if len(ifs.Body.List) == 1 {
-				if ret, ok := ifs.Body.List[0].(*ast.ReturnStmt); ok && len(ret.Results) == 1 && objOf(info, ret.Results[0]) == info.Defs[rw.Type.Params.List[0].Names[0]] {
-					guardOK = true
-				}
-			}
-		}
-		return true
-	})
-	r.Check(guardOK, "C03/rewrite", fn+" applies to bare column names only", p.Pos(rw.Pos()), "anything that is not an unquoted, unqualified, non-constant identifier is left unchanged", "the guard that leaves other conditions (qualified, quoted, true/false/null, non-identifiers) unchanged is missing or different")
+	e.FlushSites(r)
+	r.Check(rc.rewrites > 0, "C03/rewrite", fn+" equality", p.Pos(rw.Pos()), "a bare column name is rewritten into a comparison on some path", "a bare column name is not rewritten into a comparison")
+	r.Check(rc.unchanged > 0, "C03/rewrite", fn+" other conditions pass through", p.Pos(rw.Pos()), "some path returns the condition unchanged", "no path returns the condition unchanged")
 
 	bj := p.MustFunc(pkg, "buildJoinCondition")
 	r.Saw(FuncName(pkg, bj))
@@ -447,32 +375,204 @@ func ruleC03Rewrite(p *Program, r *Run) {
 		}
 		return true
 	})
-	okAnd := false
+	okAnd, okAll := false, false
+	rwObj := FuncObj(pkg, rw)
+	condsObj := info.Defs[bj.Type.Params.List[0].Names[0]]
+	isRewriteOf := func(x ast.Expr, want func(arg ast.Expr) bool) bool {
+		call, ok := p.Resolve(x).(*ast.CallExpr)
+		return ok && Callee(info, call) == rwObj && len(call.Args) == 1 && want(p.Resolve(call.Args[0]))
+	}
 	if andLit != nil {
 		op := litField(info, andLit, "Op")
 		xv, yv := litField(info, andLit, "X"), litField(info, andLit, "Y")
-		if op != nil && constName(info, op) == "TokenAnd" && xv != nil && yv != nil {
-			// x = &BinaryExpr{X: x, Op: and, Y: rewrite(y)} inside a loop over the remaining conditions
-			if yc, ok := ast.Unparen(yv).(*ast.CallExpr); ok && Callee(info, yc) == FuncObj(pkg, rw) {
-				if as, ok := p.Parent(p.Parent(andLit)).(*ast.AssignStmt); ok && len(as.Lhs) == 1 && objOf(info, as.Lhs[0]) == objOf(info, xv) {
-					okAnd = true
+		var loop *ast.RangeStmt
+		p.ancestors(andLit, bj, func(anc, _ ast.Node) bool {
+			if rs, ok := anc.(*ast.RangeStmt); ok && loop == nil {
+				loop = rs
+			}
+			return true
+		})
+		if op != nil && constName(info, op) == "TokenAnd" && xv != nil && yv != nil && loop != nil {
+			acc := objOf(info, xv)
+			// the element of the current iteration: the range value, or conds[key]
+			isElem := func(a ast.Expr) bool {
+				if loop.Value != nil && objOf(info, a) != nil && objOf(info, a) == objOf(info, loop.Value) {
+					return true
 				}
+				if ix, ok := a.(*ast.IndexExpr); ok && loop.Key != nil && objOf(info, ix.Index) == objOf(info, loop.Key) && sameExpr(info, ix.X, loop.X) {
+					return true
+				}
+				return false
+			}
+			// acc = &BinaryExpr{X: acc, Op: and, Y: rewrite(elem)}
+			if as, ok := p.Parent(p.Parent(andLit)).(*ast.AssignStmt); ok && len(as.Lhs) == 1 && acc != nil && objOf(info, as.Lhs[0]) == acc && isRewriteOf(yv, isElem) {
+				okAnd = true
+			}
+			// every condition takes part: either conds[0] seeds the fold and the loop ranges over conds[1:], or the
+			// loop ranges over all of conds and its first iteration seeds the fold with the rewritten element
+			if sl, ok := ast.Unparen(loop.X).(*ast.SliceExpr); ok && sl.High == nil && objOf(info, sl.X) == condsObj {
+				if lo, ok := constInt(info, sl.Low); ok && lo == 1 {
+					ast.Inspect(bj.Body, func(n ast.Node) bool {
+						as, ok := n.(*ast.AssignStmt)
+						if !ok || as.End() > loop.Pos() || len(as.Lhs) != 1 || len(as.Rhs) != 1 || objOf(info, as.Lhs[0]) != acc {
+							return true
+						}
+						if isRewriteOf(as.Rhs[0], func(a ast.Expr) bool {
+							ix, ok := a.(*ast.IndexExpr)
+							if !ok || objOf(info, ix.X) != condsObj {
+								return false
+							}
+							v, ok := constInt(info, ix.Index)
+							return ok && v == 0
+						}) {
+							okAll = true
+						}
+						return true
+					})
+				}
+			} else if objOf(info, loop.X) == condsObj && loop.Key != nil {
+				// if key == 0 { acc = rewrite(elem); continue }
+				for _, st := range loop.Body.List {
+					ifs, ok := st.(*ast.IfStmt)
+					if !ok || ifs.Else != nil || ifs.Pos() > andLit.Pos() {
+						continue
+					}
+					b, ok := ast.Unparen(ifs.Cond).(*ast.BinaryExpr)
+					if !ok || b.Op != token.EQL || objOf(info, b.X) != objOf(info, loop.Key) {
+						continue
+					}
+					if v, ok := constInt(info, b.Y); !ok || v != 0 {
+						continue
+					}
+					seeded, skips := false, false
+					for _, bs := range ifs.Body.List {
+						if as, ok := bs.(*ast.AssignStmt); ok && len(as.Lhs) == 1 && len(as.Rhs) == 1 && objOf(info, as.Lhs[0]) == acc && isRewriteOf(as.Rhs[0], isElem) {
+							seeded = true
+						}
+						if br, ok := bs.(*ast.BranchStmt); ok && br.Tok == token.CONTINUE && br.Label == nil {
+							skips = true
+						}
+					}
+					if seeded && skips {
+						okAll = true
+					}
+				}
+			}
+			// and the accumulated value is what is returned
+			if last, ok := bj.Body.List[len(bj.Body.List)-1].(*ast.ReturnStmt); !ok || len(last.Results) != 1 || objOf(info, last.Results[0]) != acc {
+				okAnd = false
 			}
 		}
 	}
-	r.Check(okAnd, "C03/rewrite", FuncName(pkg, bj)+" conditions are AND-ed", p.Pos(bj.Pos()), "left fold with TokenAnd over the rewritten conditions", "several join conditions are not combined with `and` (left fold over all of them, each rewritten)")
-	// every condition is used: first one seeds the fold, the loop ranges over the rest
-	okAll := false
-	ast.Inspect(bj.Body, func(n ast.Node) bool {
-		if rs, ok := n.(*ast.RangeStmt); ok {
-			if sl, ok := ast.Unparen(rs.X).(*ast.SliceExpr); ok && sl.High == nil {
-				if lo, ok := constInt(info, sl.Low); ok && lo == 1 {
-					okAll = true
-				}
-			}
-		}
-		return true
-	})
-	r.Check(okAll, "C03/rewrite", FuncName(pkg, bj)+" uses every condition", p.Pos(bj.Pos()), "conds[0] seeds the fold, the loop ranges over conds[1:]", "not every join condition takes part in the ON expression")
+	r.Check(okAnd, "C03/rewrite", FuncName(pkg, bj)+" conditions are AND-ed", p.Pos(bj.Pos()), "left fold with TokenAnd over the rewritten conditions, and the fold is what is returned", "several join conditions are not combined with `and` (left fold over all of them, each rewritten)")
+	r.Check(okAll, "C03/rewrite", FuncName(pkg, bj)+" uses every condition", p.Pos(bj.Pos()), "the first condition seeds the fold, the loop covers all the others", "not every join condition takes part in the ON expression")
 	r.Floor("C03/rewrite", 5)
+}
+
+// rewriteClient decides C03/rewrite on the path states of rewriteSimpleJoinCondition.
+type rewriteClient struct {
+	BaseClient
+	InlinePure
+	p         *Program
+	fn        string
+	param     types.Object
+	rewrites  int
+	unchanged int
+}
+
+func (c *rewriteClient) Return(e *Engine, st *State, ret *ast.ReturnStmt) {
+	if !e.Reporting() || e.Lit != nil || ret == nil || len(ret.Results) != 1 {
+		return
+	}
+	info := e.Info
+	pk := e.objKey(c.param)
+	idk := "assert(" + pk + ",*parser.QualifiedIdent)"
+	get := func(k string) *Fact { return st.Get(k) }
+	// what is known about the argument on this path
+	isQI := false
+	if f := get(pk); f != nil && len(f.TyIn) == 1 && f.TyIn[0] == "*parser.QualifiedIdent" {
+		isQI = true
+	}
+	notQI := false
+	if f := get(pk); f != nil && (hasStr(f.TyOut, "*parser.QualifiedIdent") || f.Nil == 1 || (f.TyIn != nil && !hasStr(f.TyIn, "*parser.QualifiedIdent"))) {
+		notQI = true
+	}
+	one, notOne := false, false
+	if f := get("len(" + idk + ".Parts)"); f != nil {
+		one = f.HasEq && f.Eq == "1"
+		notOne = hasStr(f.Ne, "1") || (f.Lo != nil && *f.Lo > 1) || (f.Hi != nil && *f.Hi < 1)
+	}
+	unq, quoted := false, false
+	if f := get(idk + ".Parts[0].Quoted"); f != nil && f.HasEq {
+		unq, quoted = f.Eq == "false", f.Eq == "true"
+	}
+	notBuiltin, builtin := false, false
+	if f := get("G:pql.builtinIdentifiers[" + idk + ".Parts[0].Name]"); f != nil {
+		notBuiltin = f.HasEq && f.Eq == `""`
+		builtin = hasStr(f.Ne, `""`)
+	}
+	key := fmt.Sprintf("%s return #%d", c.fn, returnOrdinal(e.Func, ret))
+	res := e.ResolveExpr(ret.Results[0])
+	if objOf(info, res) == c.param {
+		c.unchanged++
+		ok := notQI || notOne || quoted || builtin
+		e.Site("C03/rewrite", key, ret, ok, "the condition is returned unchanged and is known not to be a bare column name here")
+		if !ok {
+			e.Site("C03/rewrite", key, ret, false, "the condition is returned unchanged on a path where it may be an unquoted, unqualified, non-constant identifier: `on k` would not mean $left.k == $right.k")
+		}
+		return
+	}
+	c.rewrites++
+	guard := isQI && one && unq && notBuiltin
+	var why []string
+	if !guard {
+		why = append(why, fmt.Sprintf("the result is built on a path where the condition is not known to be a bare column name (identifier=%v, one part=%v, unquoted=%v, not a built-in constant=%v): other conditions must be left unchanged", isQI, one, unq, notBuiltin))
+	}
+	lit := litOf(c.p.Constructed(res))
+	if lit == nil || TypeStr(info.TypeOf(lit)) != "parser.BinaryExpr" {
+		e.Site("C03/rewrite", key, ret, false, "the rewritten condition is not a comparison literal")
+		return
+	}
+	if op := litField(info, lit, "Op"); op == nil || constName(info, op) != "TokenEq" {
+		why = append(why, "the rewritten condition does not use ==")
+	}
+	side := func(field, alias string) bool {
+		v := litField(info, lit, field)
+		if v == nil {
+			return false
+		}
+		ql := litOf(c.p.Constructed(v))
+		if ql == nil {
+			return false
+		}
+		parts := litField(info, ql, "Parts")
+		if parts == nil {
+			return false
+		}
+		pl, ok := ast.Unparen(c.p.Constructed(parts)).(*ast.CompositeLit)
+		if !ok || len(pl.Elts) != 2 {
+			return false
+		}
+		first := litOf(c.p.Constructed(pl.Elts[0]))
+		if first == nil {
+			return false
+		}
+		name := litField(info, first, "Name")
+		if name == nil || constName(info, c.p.Resolve(name)) != alias {
+			return false
+		}
+		if q := litField(info, first, "Quoted"); q != nil {
+			return false
+		}
+		// the second part is the argument's own single part
+		k := e.CanonSt(st, c.p.Resolve(pl.Elts[1]))
+		return k.OK && k.Key == idk+".Parts[0]"
+	}
+	if !side("X", "leftJoinTableAlias") || !side("Y", "rightJoinTableAlias") {
+		why = append(why, "the rewritten comparison is not `$left.k == $right.k` with the condition's own column on both sides")
+	}
+	e.Site("C03/rewrite", key, ret, len(why) == 0, "bare name k becomes $left.k == $right.k (same column node on both sides), only under: identifier, one part, unquoted, not true/false/null")
+	if len(why) > 0 {
+		e.Site("C03/rewrite", key, ret, false, strings.Join(why, "; "))
+	}
 }
